@@ -98,7 +98,7 @@ Mutators == {"ext", "lit", "assignlit", "attach", "ctorbuf", "ctorfill", "ctorca
              "prepend", "appendb", "prependb", "appendc", "clear", "resize", "reserve", "detach", "replacec",
              "replace", "lower", "upper", "trim", "printf", "printfw", "join", "split", "lpush"}
 Queries == {"cstr", "cstrm", "compare", "cmpx", "rel", "eq", "starts", "ends", "findc", "findlastc", "findcs", "find",
-            "finds", "findlast", "substr", "token", "tokens"}
+            "finds", "findlast", "findof", "substr", "token", "tokens"}
 Ops == Mutators \cup Queries
 
 \* The domain of the property: which operation instances the quantifier ranges over.  Operations that are C-string
@@ -133,6 +133,7 @@ InDomain(op, s, a) ==
     [] op = "findcs"    -> NulFree(v) /\ a.n \in 1..255 /\ a.n2 >= 0
     [] op \in {"find", "findlast"} -> NulFree(v) /\ NulFree(a.d)
     [] op = "finds"     -> NulFree(v) /\ NulFree(a.d) /\ a.d # <<>> /\ a.n >= 0
+    [] op = "findof"    -> NulFree(v) /\ NulFree(a.d) /\ a.n >= 0
     [] op = "substr"    -> Definite(v)
     [] op = "token"     -> NulFree(v) /\ a.n \in 1..255 /\ a.n2 \in 0..Len(v)
     [] op = "tokens"    -> NulFree(v) /\ NulFree(a.d) /\ a.n2 \in 0..Len(v)
@@ -199,6 +200,10 @@ Result(op, s, a) ==
     [] op = "find"     -> [NoRes EXCEPT !.r = IndexFrom(v, a.d, 0)]
     [] op = "finds"    -> [NoRes EXCEPT !.r = IndexFrom(v, a.d, a.n)]
     [] op = "findlast" -> [NoRes EXCEPT !.r = LastIndex(v, a.d)]
+    \* findOneOf(chars) and findOneOf(chars, n) in r (base Len + 2 digits of index + 1), findLastOf(chars) in rn
+    [] op = "findof"   -> LET S0 == {p \in 1..Len(v) : v[p] \in ByteSet(a.d)}  Sn == {p \in S0 : p > a.n}
+                              f0 == IF S0 = {} THEN -1 ELSE SetMin(S0) - 1  fn == IF Sn = {} THEN -1 ELSE SetMin(Sn) - 1 IN
+                          [NoRes EXCEPT !.r = (f0 + 1) + (Len(v) + 2) * (fn + 1), !.rn = IF S0 = {} THEN -1 ELSE SetMax(S0) - 1]
     [] op = "substr"   -> [NoRes EXCEPT !.rb = Substr(v, a.n, a.n2)]
     [] op = "token"    -> LET t == TokenAt(v, {a.n}, a.n2) IN [NoRes EXCEPT !.rb = t.tok, !.rn = t.next]
     [] op = "tokens"   -> LET t == TokenAt(v, ByteSet(a.d), a.n2) IN [NoRes EXCEPT !.rb = t.tok, !.rn = t.next]
